@@ -167,6 +167,9 @@ func (s *Step) SetModel(raw string) {
 		if s.Op.Kind == "deleteObjects" {
 			s.Model = sortListField(s.Model, "deleted=")
 		}
+		if s.Op.Kind == "listUploads" {
+			s.Model = sortListField(s.Model, "uploads=")
+		}
 	}
 }
 
